@@ -239,16 +239,24 @@ func (g *Group) scanStruct(realval reflect.Value, sfield *reflect.StructField, h
 			}
 		} else if kind == reflect.Ptr && field.Type.Elem().Kind() == reflect.Struct {
 			flagCountBefore := len(g.options) + len(g.groups)
+			allocated := false
 
 			if fld.IsNil() {
+				// A nil pointer embedded through an unexported type
+				// cannot be assigned to
+				if !fld.CanSet() {
+					continue
+				}
+
 				fld = reflect.New(fld.Type().Elem())
+				allocated = true
 			}
 
 			if err := g.scanStruct(reflect.Indirect(fld), &field, handler); err != nil {
 				return err
 			}
 
-			if len(g.options)+len(g.groups) != flagCountBefore {
+			if allocated && len(g.options)+len(g.groups) != flagCountBefore {
 				realval.Field(i).Set(fld)
 			}
 		}
